@@ -27,7 +27,7 @@ RULE = (
     " wrong LTSK / signature over each permuted transcript / other identifier / keys of another exchange / truncated,"
     " extended, missing signature or identifier; an attacker key smuggled into the sub-TLV and used for the signature; the"
     " step answered with an error code (0x00..0x08, 0x80, 0xFF, empty); M2 recorded from another exchange (also played back by a key-less attacker who answers M3 with a bare M4); EncryptedData truncated to every length / replaced by a bare tag; unencrypted sub-TLV; resume replies"
-    " with a tag from a wrong secret, flipped SessionID/Method/tag bits, tag truncated to 0..15 bytes or extended, unsolicited resume; MONITOR: the controller's M1 exchange key is new in every exchange of the process; every byte-prefix of the raw"
+    " with a tag from a wrong secret, flipped SessionID/Method/tag bits, tag truncated to 0..15 bytes or extended, unsolicited resume; identifier signed and presented in another letter case; RE-PAIRING history (same identifier, new long-term key: the new record accepts only the new key's holder, the old record only the old one's, in one process); MONITOR: the controller's M1 exchange key is new in every exchange of the process; every byte-prefix of the raw"
     " M2/M4 stream. EITHER (content-preserving): reordering and identical duplication - if accepted, keys must still"
     " equal the reference's. Distinct by (record, mutation, arg, mode); non-trivial = all."
 )
@@ -43,7 +43,7 @@ TIMEOUT = {"quick": 900, "thorough": 7200}
 MIN_CASES = {"quick": 15000, "thorough": 250000}
 REQUIRED_COUNTERS = [
     "honest_accepted", "accessory_accepted_m3", "keys_compared", "resume_accepted", "adversarial_rejected",
-    "m2_bitflips", "m4_bitflips", "exchange_keys_observed", "ip_end_to_end_sessions", "ble_end_to_end_sessions", "coap_end_to_end_sessions",
+    "m2_bitflips", "m4_bitflips", "exchange_keys_observed", "repair_history_steps", "ip_end_to_end_sessions", "ble_end_to_end_sessions", "coap_end_to_end_sessions",
 ]
 
 BLE_COAP_BUILT = True
@@ -207,6 +207,15 @@ def build_mutation(name, arg, rec: Record, rng, recorded):
         if kind == "id_swapped_sig_real":
             sig = rec.identity.ltsk.sign(ex.acc_pk + rec.identity.pairing_id + ex.ios_pk)
             return reseal(ex, [(1, rec.identity.pairing_id + b"x"), (10, sig)])
+        if kind == "id_case_variant":
+            # the holder of the right long-term key signs (and presents) an identifier that differs from the stored one only
+            # in letter case (arg 0: swapcase, 1: lower, 2: upper, 3: one 0x20 bit) - it is another identifier
+            real = rec.identity.pairing_id
+            pos = [i for i, c in enumerate(real) if 65 <= (c & 0xDF) <= 90]
+            variants = [real.swapcase(), real.lower(), real.upper()] + ([real[: pos[-1]] + bytes([real[pos[-1]] ^ 0x20]) + real[pos[-1] + 1 :]] if pos else [])
+            variants = [v for v in variants if v != real] or [real + b"a"]
+            other_id = variants[arg % len(variants)]
+            return reseal(ex, [(1, other_id), (10, rec.identity.ltsk.sign(ex.acc_pk + other_id + ex.ios_pk))])
         if kind == "sig_truncated":
             return reseal(ex, [(1, rec.identity.pairing_id), (10, ex.signature[:-1])])
         if kind == "sig_extended":
@@ -415,6 +424,32 @@ def adversarial(ctx, rec: Record, rng, mode, name, arg, recorded, label_idx) -> 
     ctx.count(f"exc_{type(out.exc).__name__}")
 
 
+def repair_history(ctx, rec: Record, rng, idx) -> None:
+    """The accessory is reset and paired again: same identifier, NEW long-term key, new record. In the same process the new
+    record must verify against the holder of the new key and must refuse the holder of the old one (and vice versa)."""
+    import copy
+
+    new = copy.copy(rec)
+    new.identity = refpv.AccessoryIdentity(rec.identity.pairing_id, rng.randbytes(32))
+    new.identity.controllers[rec.ios_id.encode()] = rec.ios_ltpk
+    new.pairing_data = dict(rec.pairing_data, AccessoryLTPK=new.identity.ltpk.hex())
+    for mode in ("ip", "ble"):
+        for label, record, holder, want_accept in (("new-record-new-key", new, new, True), ("new-record-old-key", new, rec, False),
+                                                   ("old-record-new-key", rec, new, False), ("old-record-old-key", rec, rec, True)):
+            ex = refpv.VerifyExchange(holder.identity, rng.randbytes(32))
+            ctx.case("repair", idx, mode, label, sample={"kind": "re-pairing history", "step": label, "mode": mode}, kind="repair")
+            out = drv.run_pair_verify(ex, record.pairing_data, mode)
+            accepted = out.returned and out.exc is None
+            rp = {"kind": "repair", "rec": idx, "mode": mode}
+            if want_accept and not accepted:
+                ctx.violation("authentic-accessory-refused-after-re-pairing", f"{label} [{mode}]: {out.summary()} {out.exc!r}", rp)
+                return
+            if not want_accept and accepted:
+                ctx.violation("keys-for-holder-of-another-long-term-key-after-re-pairing", f"{label} [{mode}]: pair-verify returned keys to the holder of a key that is not the record's", rp)
+                return
+            ctx.count("repair_history_steps")
+
+
 def plan_for(ctx, m2_items):
     nbits_m2 = sum(len(v) for _, v in m2_items) * 8
     plan = [("M2:flip", b) for b in range(nbits_m2)] + [("M4:flip", b) for b in range(8)]
@@ -428,7 +463,7 @@ def plan_for(ctx, m2_items):
              ("M2:replay_recorded_m2", 0), ("M2:replay_whole_exchange", 0), ("M2:replay_whole_exchange", 1), ("M2:encdata_tag_only", 0)]
     enc_len = len(dict((t, v) for t, v in m2_items)[5])
     plan += [("M2:encdata_trunc", n) for n in sorted({0, 1, 15, 16, 17, enc_len - 17, enc_len - 16, enc_len - 1} | set(range(0, enc_len, ctx.pick(13, 1))))]
-    plan += [("M2:attacker_key_inside", i) for i in range(8)]
+    plan += [("M2:attacker_key_inside", i) for i in range(8)] + [("M2:id_case_variant", i) for i in range(4)]
     plan += [("M4:error", c) for c in (0, 1, 2, 3, 4, 5, 6, 7, 8, 0x80, 255, -1)] + [("M2:error", c) for c in (0, 1, 2, 6, 255)]
     plan += [("M2:error_with_fields", c) for c in (0, 1, 2, 7, 255)]
     plan += [("M2:sig_permuted", i) for i in range(5)] + [("M2:sig_flipped", b) for b in range(0, 512, 37)]
@@ -492,6 +527,7 @@ def run(ctx) -> None:
             modes = ("ip", "ble") if not name.endswith(":flip") else (("ip",) if (j + idx) % 2 else ("ble",))
             for mode in modes:
                 adversarial(ctx, rec, rng, mode, name, arg, recorded, idx)
+        repair_history(ctx, rec, rng, idx)
     ctx.exhaustive_parts["every single-bit flip of every M2/M4 field byte, every byte-prefix, per record"] = True
 
     from vf import vloop
@@ -524,6 +560,9 @@ def replay(ctx, d) -> None:
         return
     if d["kind"].startswith("resume"):
         resume_cases(ctx, rec, rng, mode, first, idx)
+        return
+    if d["kind"] == "repair":
+        repair_history(ctx, rec, rng, idx)
         return
     recorded = {"m2": first["m2"], "signature": first["signature"], "m2_by_mode": [first["m2"], first["m2"]]}
     adversarial(ctx, rec, rng, mode, d["name"], d["arg"], recorded, idx)
